@@ -143,18 +143,20 @@ def fingerprint(trace, rej):
     if i >= len(trace["ev"]):
         return "end"
     e = trace["ev"][i]
-    ctx = trace.get("ctx", [""] * (i + 1))[i]
+    ph = trace["ctx"][i]
     bad_nested = sorted({"%s-callback:%s=%s" % (n["by"], n["call"], n["res"]) for n in e["nested"] if n["res"] != "ok"})
     if bad_nested and e["res"] == "ok":
         # a call made by a user callback while the service was delivering a result was refused
-        return "reentrant/" + "+".join(bad_nested)
+        return "reentrant/" + bad_nested[0]
+    if e["e"] == "drop":
+        return "drop(connection %s)/%s" % (ph["conns"].get(str(e["a"]), "?"), e["res"])
     arg = ""
     if e["e"] == "when":
         arg = "(limit)" if e["k"] else "()"
-    if e["res"] != "ok":
-        return "%s%s/%s/before=%s" % (e["e"], arg, e["res"], ctx)
-    obs = sorted({o["k"] + ("=" + o["r"] if o["r"] != "-" else "") for o in e["obs"]})
-    return "%s%s/ok/before=%s/observed=%s" % (e["e"], arg, ctx, "+".join(obs) or "-")
+    before = ph["intent"] + "|" + ",".join((["attempt"] if ph["attempt"] else []) + sorted(set(ph["conns"].values())) or ["-"])
+    if e["e"] == "stop" and ph["intent"] == "never-started" and ph["waiters_pending"]:
+        before += "|waiters-pending"
+    return "%s%s/%s/before=%s" % (e["e"], arg, e["res"], before)
 
 
 def report(ctx, traces, rejects, limit=40):
